@@ -1023,7 +1023,7 @@ func scanNumber(l *lexer) (typ itemType, ok bool) {
 			// No signs for hexadecimals.
 			return
 		}
-		l.acceptRun("0x")
+		l.pos += 2 // "0x" (acceptRun would take the zeros of 0x0 or 0x00FF for the prefix)
 		if !l.acceptRun(hexDigits) {
 			// Requires at least one digit.
 			return
